@@ -26,7 +26,7 @@ RULE = (
     "sys.setswitchinterval(1e-6). distinct_nontrivial = distinct switch traces with at least one switch inside library code, plus stress rounds."
 )
 TECHNIQUE = (
-    "runtime monitoring: forced thread interleavings through sys.monitoring (site-directed single and double preemption, first-use schedules, PCT/random walks) plus free-running stress; oracle = each thread's solo outcomes"
+    "runtime monitoring: forced thread interleavings through sys.monitoring (site-directed single preemption, double preemption within functions and on a coarse cross-function grid, first-use schedules, PCT/random walks) plus free-running stress; oracle = each thread's solo outcomes"
 )
 ASSUMPTIONS = [
     "the documented threading contract: one Environment and program per thread",
